@@ -39,3 +39,26 @@ func ZZ_C14_dst_redirect_rule() {
 	_, err6 := dstIPRule(3, &net.IPNet{IP: net.ParseIP("fd00::"), Mask: net.CIDRMask(64, 128)}, dst, netlink.TCA_INGRESS_REDIR)
 	zz.Assert(err6 != nil, "an IPv6 CIDR is refused")
 }
+
+// C14 (every CIDR is served by its own classifier): which installed filter a
+// rule accepts as "already there".  For every pair of IPv4 CIDRs (any two
+// prefix lengths, any two addresses - nested, overlapping, disjoint): the
+// rule of one CIDR recognises the filter installed for the other only when
+// both denote the same set of destinations; otherwise the wanted filter would
+// never be installed and the one left in place classifies differently.
+func ZZ_C14_redirect_filter_identity() {
+	p1, p2 := zz.IntRange("prefix.wanted", 0, 32), zz.IntRange("prefix.installed", 0, 32)
+	n1, n2 := zz.Uint32("net.wanted"), zz.Uint32("net.installed")
+	mk := func(n uint32, p int) *net.IPNet {
+		return &net.IPNet{IP: net.IP{byte(n >> 24), byte(n >> 16), byte(n >> 8), byte(n)}, Mask: net.CIDRMask(p, 32)}
+	}
+	want, e1 := dstIPRule(3, mk(n1, p1), 7, netlink.TCA_INGRESS_REDIR)
+	inst, e2 := dstIPRule(3, mk(n2, p2), 7, netlink.TCA_INGRESS_REDIR)
+	zz.Assert(e1 == nil && e2 == nil && want != nil && inst != nil, "both CIDRs yield rules")
+	if want == nil || inst == nil {
+		return
+	}
+	f := inst.toU32Filter()
+	sameSet := p1 == p2 && (p1 == 0 || (n1^n2)>>uint(32-p1) == 0)
+	zz.Assert(want.isMatch(f) == sameSet, "a rule accepts an installed filter as its own exactly when the filter serves the same CIDR")
+}
